@@ -490,20 +490,27 @@ class Prop:
     case_vo = "theories/Cases/CaseC17.vo"
     run_fn = "run17"
     shard = 40
-    rule = ("plain and typed trees: every ordered forest with <= N nodes (N=4 quick, 5 thorough) x label patterns "
+    rule = ("plain and typed trees: every ordered forest with <= N nodes (N=4 quick, 5 thorough) x 6 label patterns "
             "(all distinct; clones across branches; a descendant that is a clone of its ancestor; int data_ids incl. 0; "
-            "explicit str data_ids incl. ''; one shared explicit id) plus seeded random trees up to 12 nodes over a small "
-            "label alphabet; for each tree: the whole tree (Tree API) and every node (small trees) or 3 sampled nodes "
-            "(random trees) as start x DOT/Mermaid (unique_nodes x add_self/add_root) and RDF (add_self on/off; tree).  "
-            "A case is one tree with its start list; distinct = distinct (nodes, typed, starts); non-trivial = the tree "
-            "has >= 2 nodes")
-    exhaustive_note = "all shapes <= N nodes x 6 label patterns x plain/typed, every start node (N=4 quick, 5 thorough)"
+            "explicit str data_ids incl. ''; one shared explicit id), plain and typed for <= 3 nodes, alternating plain / "
+            "typed over patterns and shapes above (quick: all patterns, thorough: the two id patterns), plus seeded random "
+            "trees of 5..12 nodes over a small label alphabet; for each tree: the whole tree (Tree API) and every node "
+            "(small trees) or 3 sampled nodes (random trees) as start x DOT/Mermaid structure (unique_nodes x "
+            "add_self/add_root) and RDF (add_self on/off; tree); plus 2-3 whole Mermaid charts (markdown, direction, "
+            "title, headers, string node/edge templates incl. malformed ones) and 1-2 whole DOT documents (graph/node/edge "
+            "attribute dicts, attribute-setting mappers) compared line by line.  A case is one tree with its request "
+            "lists; distinct = distinct (nodes, typed, starts, charts, docs); non-trivial = the tree has >= 2 nodes")
+    exhaustive_note = ("all shapes <= N nodes x 6 label patterns, every start node (N=4 quick, 5 thorough); plain and typed "
+                       "both for <= 3 nodes, alternating above")
     assumptions = [
         "identity of nodes is the allocation index recorded by a harness-side wrapper of Node.__init__",
         "exports are compared as structures parsed back from the emitted DOT / Mermaid lines and rdflib triples; "
         "quoting/escaping of keys and names in the text formats is outside the model (generated data_ids and names "
         "print injectively and contain no quotes)",
-        "node_mapper / edge_mapper / attribute dictionaries are left at their defaults",
+        "Mermaid mappers: None or str templates over from_id/to_id/kind/from_node.name/to_node.name/node.name (callables "
+        "are not modelled); DOT mappers: callbacks that set one attribute in place; RDF node_mapper left at None",
+        "in DOT documents with unique_nodes=False the node ids (memory addresses) are rewritten by the harness to "
+        "@<allocation index> before the comparison",
     ]
     manifest = dict(
         text=("Machine-checked theorems (Coq 8.16, no axioms) about an executable model of node_to_dot, the Mermaid flowchart "
@@ -581,15 +588,15 @@ class Prop:
         yield from CORPUS
         ci = 0
         for n in range(1, nmax + 1):
-            for shape in H.forests(n):
+            for si, shape in enumerate(H.forests(n)):
                 for pi, pat in enumerate(self.PATTERNS):
                     for typed in (False, True):
-                        if n >= 4 and pat in ("ints", "strids") and typed != (pi % 2 == 0):
-                            continue   # thin out: these patterns do not depend on typed-ness much
+                        if n >= 4 and (pat in ("ints", "strids") or tier == "quick") and typed != ((pi + si) % 2 == 0):
+                            continue   # thin out: alternate plain / typed over patterns and shapes
                         univ, nodes = self.label(pat, shape, typed)
                         ci += 1
                         charts = [[0, CHART_OPTS[ci % len(CHART_OPTS)]], [1, CHART_OPTS[(ci // 2 + 3) % len(CHART_OPTS)]]]
-                        docs = [[ci % 2, DOT_OPTS[ci % len(DOT_OPTS)]], [(ci + 1) % 2, DOT_OPTS[(ci // 3 + 2) % len(DOT_OPTS)]]]
+                        docs = [[ci % 2, DOT_OPTS[ci % len(DOT_OPTS)]], [(ci + 1) % 2, DOT_OPTS[(ci // 3 + 2) % len(DOT_OPTS)]]][:2 if n <= 3 else 1]
                         yield dict(typed=typed, univ=univ, nodes=nodes, starts="all", charts=charts, docs=docs)
         nrand = 40 if tier == "quick" else 400
         for _ in range(nrand):
@@ -720,8 +727,7 @@ class Prop:
             [e(d, lambda d: [[[obs_key(k), opt(lbl), box] for k, lbl, box in d[0]],
                              [[obs_key(x), obs_key(y), opt(lbl)] for x, y, lbl in d[1]]]) for d in dots],
             [e(m, lambda m: [[[i, nm, r] for i, nm, r in m[0]],
-                             [[[x], [y], opt(k)] for x, y, k in m[1]],
-                             [[ln] for ln in m[2]], [[ln] for ln in m[3]]]) for m in mers],
+                             [[[x], [y], opt(k)] for x, y, k in m[1]]]) for m in mers],
             [e(r, obs_rdf) for r in rdfs],
         ]
 
